@@ -426,6 +426,10 @@ where
         Pfs::new(self)
     }
 
+    pub(crate) fn out_len(&self) -> usize {
+        self.inner.2.borrow().len_outbound()
+    }
+
     /// Returns an iterator over the node's adjacent edges.
     pub fn iter(&self) -> NodeIterator<K, N, E> {
         NodeIterator {
